@@ -75,13 +75,13 @@ pub fn check_relative(p: &str, b: &str) -> CaseResult {
 }
 
 fn deep_path() -> impl Strategy<Value = String> {
-    prop::collection::vec(prop::sample::select(&["a", "b", "c", "é", "日本", "d e", "x.y", "..z", "😀"][..]), 0..=12)
+    prop::collection::vec(prop::sample::select(&["a", "b", "ab", "a.b", "é", "éé", "日本", "d e", "..z", "😀"][..]), 0..=12)
         .prop_map(|v| if v.is_empty() { "/".to_string() } else { format!("/{}", v.join("/")) })
 }
 
 pub fn run(c: &Ctx) {
-    c.set_rule("exhaustive: all ordered pairs of the 121 clean absolute paths with <=4 components over {a,b,c}; then seeded random pairs up to depth 12 over 9 names (multi-byte, spaces, dots) with a shared random prefix in half of them. Oracle: result relative, (../)*normal*, clean(base/result)==path, #'..' == |base|-|common prefix|. Non-trivial = path!=base and the common prefix is shorter than both (needs '..' and normal parts); distinct by pair.");
-    let paths = all_paths(&["a", "b", "c"], 4);
+    c.set_rule("exhaustive: all ordered pairs of the 121 clean absolute paths with <=4 components over {a,ab,b} (one name is a string prefix of another); then seeded random pairs up to depth 12 over 9 names (multi-byte, spaces, dots) with a shared random prefix in half of them. Oracle: result relative, (../)*normal*, clean(base/result)==path, #'..' == |base|-|common prefix|. Non-trivial = path!=base and the common prefix is shorter than both (needs '..' and normal parts); distinct by pair.");
+    let paths = all_paths(&["a", "ab", "b"], 4);
     let n = paths.len() as u64;
     par_for(n * n, 512, |i| {
         let (p, b) = (&paths[(i / n) as usize], &paths[(i % n) as usize]);
